@@ -96,10 +96,10 @@ inline SafeInt<T2> operator+(T1 a, SafeInt<T2> b) { return SafeInt<T2>(a) + b; }
 template <typename T>
 inline SafeInt<T> operator-(SafeInt<T> a, SafeInt<T> b) {
   T a_value = val(a), b_value = val(b);
-  if (a_value >= 0) {
-    if (b_value < a_value - std::numeric_limits<T>::max())
+  if (!fmt::internal::is_negative(b_value)) {
+    if (a_value < std::numeric_limits<T>::min() + b_value)
       throw OverflowError();
-  } else if (b_value > a_value - std::numeric_limits<T>::min())
+  } else if (a_value > std::numeric_limits<T>::max() + b_value)
     throw OverflowError();
   return a_value - b_value;
 }
